@@ -102,7 +102,7 @@ theorem short_ne_full {k n cs} (hw1 : WF (.short k n)) (hw2 : WF (.full cs))
     exact hij (h1.1.symm.trans h2.1)
 
 /-- if one short key strictly extends the other, the tries differ on some key -/
-theorem short_key_extension {k n n2 r0 rs} (hw1 : WF (.short (k ++ r0 :: rs) n)) (hw2 : WF (.short k n2))
+theorem short_key_extension {k n n2 r0 rs} (_hw1 : WF (.short (k ++ r0 :: rs) n)) (hw2 : WF (.short k n2))
     (heq : ∀ key, lookup (.short (k ++ r0 :: rs) n) key = lookup (.short k n2) key) : False := by
   obtain ⟨_, hne2, hns2, hwn2, _, _⟩ := hw2
   apply no_common_head hwn2 hne2 hns2 r0
